@@ -384,7 +384,10 @@ func (o Ops) Convert(a *Int, w int, fromSigned, toSigned bool) *Int {
 			lin = o.opaque(fmt.Sprintf("zext%d", a.W), w, a.Hi, a)
 		}
 	} else {
-		lin = o.opaque(fmt.Sprintf("sext%d", a.W), w, m, a)
+		// sign extension: the zero-extended value minus 2^N when bit N-1 is set
+		sign := o.Convert(o.Shr(a, NewConst(a.W, uint64(a.W-1), false), false), w, false, false)
+		zx := o.Convert(a, w, false, false)
+		lin = linAdd(zx.Lin, linScale(sign.Lin, (m-mask(a.W))&m), false)
 	}
 	return o.mk(w, toSigned, bv, lo, hi, lin)
 }
